@@ -1,6 +1,105 @@
-import HranoModel.Model.Options
-import HranoModel.Model.Sink
-import HranoModel.Model.Chan
-/-! C12 property theorems (statements only in this file; helper lemmas live in Lemmas/) -/
+import HranoModel.Lemmas.Walk
+import HranoModel.Lemmas.Merge
+/-!
+C12 — reports compose over the log history.
+
+Property theorems only.  A history is a concatenation of event lists (one record per heading);
+nothing here assumes anything about the dates, so repeated dates and reordered days are covered.
+Still open (stated in DESIGN.md): the text-level lemma `parse (t₁ ++ t₂) = parse t₁ ++ shift (parse t₂)`
+and the element-wise statement for the balance tree (needs the path-total lemma of C03).
+-/
 namespace Hrano.C12
+open Hrano Hrano.App Hrano.Spec Hrano.Report
+
+/-- Walking a concatenated history processes the days of the first part and then the days of the second:
+    what was processed for the earlier part does not depend on what is appended. -/
+theorem walk_composes (l : Layout) (b e : Option Int) (se : Option ScanErr) (evs₁ evs₂ : List Event)
+    (h : (walk l b e none evs₁).2 = none) :
+    (walk l b e se (evs₁ ++ evs₂)).1 = (walk l b e none evs₁).1 ++ (walk l b e se evs₂).1
+    ∧ (walk l b e se (evs₁ ++ evs₂)).2 = (walk l b e se evs₂).2 := by
+  rw [walk_append]
+  rcases hw : walk l b e none evs₁ with ⟨d₁, _ | err⟩
+  · simp
+  · rw [hw] at h; cases h
+
+/-- **Per-day reports compose**: register (default, left-aligned, old reporter), single-food and
+    single-element registers of the concatenated history are the concatenation of the reports of the parts. -/
+theorem register_composes (rc : RCfg) (db : Book) (a b : List LogDay)
+    (h : rc.singleElement = [] ∨ rc.groupFood = false) :
+    regOutput rc db (a ++ b) = regOutput rc db a ++ regOutput rc db b := by
+  unfold regOutput
+  by_cases h1 : rc.singleElement.isEmpty = true
+  · simp only [h1, Bool.not_true, Bool.false_eq_true, if_false]
+    split
+    · exact perDay_append _ a b
+    · split
+      · exact perDay_append _ a b
+      · split <;> exact perDay_append _ a b
+  · have h1' : rc.singleElement.isEmpty = false := by simpa using h1
+    have hg : rc.groupFood = false := by
+      rcases h with h | h
+      · rw [h] at h1'; simp at h1'
+      · exact h
+    simp only [h1', Bool.not_false, if_true, hg, Bool.false_eq_true, if_false]
+    exact perDay_append _ a b
+
+/-- `csv log` composes -/
+theorem csv_log_composes (a b : List LogDay) :
+    perDay renderCsvLog (a ++ b) = perDay renderCsvLog a ++ perDay renderCsvLog b :=
+  perDay_append _ a b
+
+/-- `print` composes -/
+theorem print_composes (rc : RCfg) (a b : List LogDay) :
+    perDay (renderPrint rc) (a ++ b) = perDay (renderPrint rc) a ++ perDay (renderPrint rc) b :=
+  perDay_append _ a b
+
+/-- the contributions a period report accumulates over a list of days -/
+def periodContributions (db : Book) (days : List LogDay) : Elements :=
+  dayContributions db (allElements days)
+
+/-- the accumulator `report totals` prints, as a function of the days processed -/
+def totalsAcc (db : Book) (days : List LogDay) : Accumulator :=
+  (allElements days).foldl (fun a e => accumulate a (contributions db e)) []
+
+/-- **Period totals are additive**: for every element, the positive and the negative register of the
+    concatenated history are the sums of those of the parts (so is their sum). -/
+theorem totals_additive (db : Book) (a b : List LogDay) (n : Bytes) :
+    Accumulator.posAt (totalsAcc db (a ++ b)) n = Accumulator.posAt (totalsAcc db a) n + Accumulator.posAt (totalsAcc db b) n
+    ∧ Accumulator.negAt (totalsAcc db (a ++ b)) n = Accumulator.negAt (totalsAcc db a) n + Accumulator.negAt (totalsAcc db b) n := by
+  have key : ∀ days, totalsAcc db days = accumulate [] (periodContributions db days) :=
+    fun days => foldl_accumulate_flatten (contributions db) (allElements days) []
+  have happ : periodContributions db (a ++ b) = periodContributions db a ++ periodContributions db b := by
+    simp [periodContributions, dayContributions, allElements_append]
+  simp only [key, posAt_accumulate, negAt_accumulate, happ, posOf_append, negOf_append]
+  simp [Accumulator.posAt, Accumulator.negAt, Accumulator.find, Rat.zero_add]
+
+/-- `renderTotals` prints exactly that accumulator (sorted) -/
+theorem totals_prints_acc (db : Book) (days : List LogDay) (h : (totalsAcc db days).isEmpty = false) :
+    ∃ header, renderTotals days db = header ++ ((Accumulator.sorted (totalsAcc db days)).map (fun a =>
+        Num.fmtFixedW 12 2 a.pos ++ [32, 32] ++ Num.fmtFixedW 12 2 a.neg ++ [32, 32]
+        ++ Num.fmtFixedW 12 2 (a.pos + a.neg) ++ [32, 32] ++ a.name ++ [10])).flatten := by
+  refine ⟨Bytes.padLeft 32 12 (Bytes.ofString "positive") ++ [32, 32] ++ Bytes.padLeft 32 12 (Bytes.ofString "negative") ++ [32, 32]
+    ++ Bytes.padLeft 32 12 (Bytes.ofString "sum") ++ [32, 32] ++ Bytes.ofString "element" ++ [10], ?_⟩
+  simp only [renderTotals, totalsAcc] at h ⊢
+  rw [if_neg (by simp [h])]
+
+/-- the per-food sums `report quantity` prints, as a function of the days processed -/
+def quantityAcc (days : List LogDay) : Elements :=
+  (allElements days).foldl (fun a e => Elements.addTo a e.name e.value) []
+
+/-- **Quantities are additive** over the history -/
+theorem quantity_additive (a b : List LogDay) (n : Bytes) :
+    Elements.valueAt (quantityAcc (a ++ b)) n = Elements.valueAt (quantityAcc a) n + Elements.valueAt (quantityAcc b) n := by
+  have key : ∀ days, Elements.valueAt (quantityAcc days) n = sumOf n (allElements days) := by
+    intro days
+    have := mergeDay_value (allElements days) n
+    simpa [quantityAcc, mergeDay] using this
+  simp only [key, allElements_append, sumOf_append]
+
+/-- the balance tree of the concatenated history is the tree of the first part with the elements of the
+    second part added to it (no state other than the tree is carried from day to day) -/
+theorem balance_tree_composes (a b : List LogDay) :
+    Tree.build (allElements (a ++ b)) = (allElements b).foldl Tree.addDeep (Tree.build (allElements a)) := by
+  simp [Tree.build, allElements_append, List.foldl_append]
+
 end Hrano.C12
